@@ -201,7 +201,7 @@ def finish(prop, tier, seed, mod, results, t0, update_inventory, only):
             undecided.append((n, rec.get('reason', '')))
     # a known finding that no longer fails is simply not printed (fixed entries suppress nothing)
     for kf, n in known_hit:
-        lines.append(f'KNOWN-FINDING: property={prop} {kf["what"]} [obligation {n}]')
+        lines.append(f'KNOWN-FINDING: property={prop} {kf.get("id", "")} {kf["what"][:260]} [obligation {n}]')
     for n, path, confirmed in violations:
         tail = '' if confirmed else ' no-failing-input-found'
         lines.append(f'VIOLATION property={prop} replay={path} obligation={n}{tail}')
@@ -263,8 +263,11 @@ def finish(prop, tier, seed, mod, results, t0, update_inventory, only):
 
 
 def match_known(known, name, rec):
+    import fnmatch
     for kf in known:
-        if kf.get('obligation') == name:
+        pats = kf.get('obligation')
+        pats = pats if isinstance(pats, list) else [pats]
+        if any(fnmatch.fnmatchcase(name, p) for p in pats):
             return kf
     return None
 
